@@ -326,6 +326,20 @@ func runC16As(c *Ctx, P string) {
 							}
 						}
 					}
+					if !good && fname == "AllowedIPs" && len(stores) > 0 {
+						// a list rebuilt element by element (make/append loop) does not share its backing array with
+						// the caller, whatever the provenance of the (immutable) strings in it
+						good = true
+						for _, v := range stores {
+							bk := map[string]bool{}
+							sliceBacking(v, map[ssa.Value]bool{}, bk, nil)
+							for k := range bk {
+								if k != "fresh" {
+									good = false
+								}
+							}
+						}
+					}
 					c.verdictIf(good, P, "snapshot", "field="+fname, p.instrPos(in), "deep-copied into the stored policy", "the policy in force shares its "+fname+" with the caller's struct: the caller can change the policy later without a drain")
 				}
 			}
